@@ -89,26 +89,23 @@ ExpectedRe(rec, k, c) ==
        [] f = "sub1" -> SubOf(v, m1, str)
        [] f = "gsub" -> SubOf(v, c.mg, str)
        [] f = "gsub1" -> SubOf(v, mg1, str)
-       \* --- the laws of the property, run as jq programs on the real code ---
+       \* --- the laws of the property, run as jq programs on the real code.  Where the program does not fail the
+       \*     prescribed answer is the LAW (true), not what the transcription computes (LawsRe checks that the
+       \*     transcription obeys the law on this instance as well) ---
        \* . as $s | [match($re; $flags + "g") | (., (.captures[] | select(.offset >= 0))) | . as $m
        \*            | $s[$m.offset:$m.offset + $m.length] == $m.string] | all
-       [] f = "law_slice" ->
-            (IF Failed(c.mg) THEN c.mg ELSE V1(Bool(\A i \in 1..Len(c.mg.o) : MatchSliceLaw(v, c.mg.o[i]))))
-       \* gsub("(?<w>" + $re + ")"; .w; $flags) == .
-       [] f = "law_gsubid" ->
-            (LET r == SubOf(v, c.mw, LAMBDA x : StrEval(DotW, x)) IN
-             IF Failed(r) THEN StreamErr(r.e) ELSE VOk([i \in 1..Len(r.o) |-> Bool(r.o[i] = v)]))
+       [] f = "law_slice" -> (IF Failed(c.mg) THEN c.mg ELSE V1(True))
+       \* gsub("(?<w>" + $re + ")"; .w; $flags) == .        (only for a $re that is accepted on its own)
+       [] f = "law_gsubid" -> (IF Failed(c.mg) /\ Failed(c.mw) THEN c.mw
+                               ELSE IF Failed(c.mg) \/ Failed(c.mw) THEN VOom          \* the wrapper changed acceptance: the law does not speak
+                               ELSE V1(True))
        \* [splits($re; $flags)] as $p | [match($re; $flags + "g") | .string] as $m
        \*   | ($p | length) == ($m | length) + 1 and ([range($m | length) as $i | $p[$i], $m[$i]] + [$p[-1]] | add) == .
-       [] f = "law_splits" ->
-            (LET sp == SplitsOf(v, c.mg) IN
-             IF Failed(sp) THEN StreamErr(sp.e) ELSE V1(Bool(SplitsLaw(v, sp.o, c.mg.o))))
+       [] f = "law_splits" -> (IF Failed(c.mg) THEN c.mg ELSE V1(True))
        \* test($re; $flags) == ([match($re; $flags)] | length > 0)
-       [] f = "law_test" ->
-            (IF Failed(c.m) THEN c.m ELSE IF Failed(c.t) THEN c.t ELSE V1(Bool(c.t.o[1] = Bool(Len(c.m.o) > 0))))
+       [] f = "law_test" -> (IF Failed(c.m) THEN c.m ELSE IF Failed(c.t) THEN c.t ELSE V1(True))
        \* [capture($re; $flags)] == [match($re; $flags) | [.captures[] | select(.name != null) | {key: .name, value: .string}] | from_entries]
-       [] f = "law_capture" ->
-            (LET x == CaptureOf(c.m) IN IF Failed(x) THEN StreamErr(x.e) ELSE V1(True))
+       [] f = "law_capture" -> (IF Failed(c.m) THEN c.m ELSE V1(True))
        [] OTHER -> VOom
 
 \* assumptions RegexMC makes about the engine, checked on what it really answered
@@ -127,12 +124,23 @@ ProbeOK(bset, p) ==
 EnvRe(rec) ==
   rec.input.t = "str" => LET bset == BoundarySet(Utf8Enc(rec.input.s)) IN \A i \in 1..Len(rec.probes) : ProbeOK(bset, rec.probes[i])
 
-\* the laws on the specification's objects for this instance: the global matches of $re and of the wrapped $re
+\* the laws on the specification's own objects for this instance (RegexMC proves them for the bounded universe;
+\* here they are evaluated on the real engine's answers for longer subjects and real regexes)
 LawsRe(c) ==
   c.v.t = "str" =>
-    \A ms \in {c.mg, c.mw} :
-      (~Failed(ms)) => (/\ AdvancingLaw(c.v, ms.o)
-                        /\ \A j \in 1..Len(ms.o) : MatchSliceLaw(c.v, ms.o[j]))
+    /\ \A ms \in {c.mg, c.mw} :
+         (~Failed(ms)) => (/\ AdvancingLaw(c.v, ms.o)
+                           /\ \A j \in 1..Len(ms.o) : MatchSliceLaw(c.v, ms.o[j]))
+    /\ (~Failed(c.mg)) =>
+         (/\ LET sp == SplitsOf(c.v, c.mg) IN ~Failed(sp) /\ SplitsLaw(c.v, sp.o, c.mg.o)
+          /\ ~Failed(c.m) /\ c.m.o = SubSeq(c.mg.o, 1, Len(c.m.o)) /\ (HasCp(IF c.fl.t = "str" THEN c.fl.s ELSE <<>>, FlagG) \/ Len(c.m.o) = (IF Len(c.mg.o) > 0 THEN 1 ELSE 0))
+          /\ c.t = V1(Bool(Len(c.mg.o) > 0)))
+    /\ (~Failed(c.mg) /\ ~Failed(c.mw)) =>
+         (/\ SubOf(c.v, c.mw, LAMBDA x : StrEval(DotW, x)) = V1(c.v)                         \* gsub("(?<w>RE)"; .w) = .
+          /\ Len(c.mw.o) = Len(c.mg.o)
+          /\ \A j \in 1..Len(c.mw.o) : /\ ObjGet(c.mw.o[j].o, kOffset) = ObjGet(c.mg.o[j].o, kOffset)
+                                        /\ ObjGet(c.mw.o[j].o, kString) = ObjGet(c.mg.o[j].o, kString)
+                                        /\ ObjGet(ObjGet(c.mw.o[j].o, kCaptures).a[1].o, kString) = ObjGet(c.mg.o[j].o, kString))
 
 -----------------------------------------------------------------------------
 (* family "pos"                                                             *)
